@@ -408,6 +408,27 @@ func (fr *Frame) loopHeader(li *loopInfo) {
 		li.phiFresh[phi] = nv
 		fr.vals[phi] = nv
 		delete(fr.locs, phi)
+		if phi.Comment == "rangeindex" {
+			// built-in invariant of range-over-slice loops as generated by go/ssa: the hidden index starts at -1 and
+			// only grows by one while it is below the (once evaluated) length
+			vc.assume(tLe(tInt(-1), nv))
+			// ... and index+1 never exceeds the length it is compared with
+			var next ssa.Value
+			for _, hi := range b.Instrs {
+				if bo, ok := hi.(*ssa.BinOp); ok {
+					if bo.Op == token.ADD && bo.X == ssa.Value(phi) {
+						next = bo
+					}
+					if bo.Op == token.LSS && next != nil && bo.X == next {
+						if _, isPhi := bo.Y.(*ssa.Phi); !isPhi {
+							if n, ok := fr.vals[bo.Y]; ok {
+								vc.assume(tLe(tAdd(nv, tInt(1)), n))
+							}
+						}
+					}
+				}
+			}
+		}
 	}
 	fr.havocLoopMods(li)
 	// map range ghost: seen-set is havocked
